@@ -22,7 +22,7 @@ from .common import (answer, canon_data, dt_to_us, err_kind, ev_tuple, hx, mk_ev
                      us_to_dt)
 
 BACKENDS = ("memory", "sqlite", "peewee")
-WRITE_OPS = {"create", "create_bad", "update", "delbucket", "insert", "bulk", "replace", "replacelast", "delete"}
+WRITE_OPS = {"create", "create_bad", "update", "delbucket", "insert", "bulk", "replace", "replacelast", "delete", "reopen"}
 
 
 def tmp_root():
@@ -38,6 +38,7 @@ class Store:
         from aw_datastore.storages import MemoryStorage, PeeweeStorage, SqliteStorage
 
         self.backend = backend
+        self.lazy = lazy
         self.dir = None
         if backend == "memory":
             self.ds = Datastore(MemoryStorage, testing=True)
@@ -50,6 +51,21 @@ class Store:
                 self.ds = Datastore(SqliteStorage, testing=True, filepath=path, enable_lazy_commit=lazy)
             else:
                 self.ds = Datastore(PeeweeStorage, testing=True, filepath=path)
+        self.st = self.ds.storage_strategy
+
+    def reopen(self):
+        """the client restarts after a clean stop: a new Datastore object on the same database file (nothing to do
+        for the memory backend, whose contents live in the object)"""
+        from aw_datastore import Datastore
+        from aw_datastore.storages import PeeweeStorage, SqliteStorage
+
+        if self.backend == "sqlite":
+            self.st.commit()
+            self.st.conn.close()
+            self.ds = Datastore(SqliteStorage, testing=True, filepath=self.path, enable_lazy_commit=self.lazy)
+        elif self.backend == "peewee":
+            self.st.db.close()
+            self.ds = Datastore(PeeweeStorage, testing=True, filepath=self.path)
         self.st = self.ds.storage_strategy
 
     def close(self):
@@ -183,6 +199,10 @@ class Runner:
                 elif k == "delbucket":
                     ds.delete_bucket(op[1])
                     out = ["ok"]
+                elif k == "reopen":
+                    store.reopen()
+                    ds, st = store.ds, store.st
+                    out = ["ok"]
                 elif k == "lookup":
                     ds[op[1]]
                     out = ["ok"]
@@ -306,6 +326,10 @@ def model_lines(backend, resolved, with_dumps=True):
                                                  p_opt(u.get("hostname"), hx), p_opt(u.get("name"), hx), p_opt(data, hx)]))
         elif k == "create_bad":
             L.append(pre + f"lookup {hx(op[1])}")  # the model does nothing for a rejected creation (a read keeps the lines aligned)
+        elif k == "reopen":
+            # a new storage object on the same file: the tables are the state, the model does nothing (peewee's key
+            # cache is rebuilt from the table: C05.peewee_keys_coherent says it equals the table at all times)
+            L.append(pre + "buckets")
         elif k in ("delbucket", "lookup", "metadata"):
             L.append(pre + f"{k} {hx(op[1])}")
         elif k == "buckets":
@@ -361,6 +385,8 @@ def model_out(backend, resolved, answers, idx):
         k = op[0]
         if k == "create_bad":
             outs.append(["rejected"])
+        elif k == "reopen":
+            outs.append(["ok"])
         elif a.startswith("err "):
             outs.append(["err", a.split()[1]])
         else:
